@@ -21,6 +21,7 @@ def run(run, model):
     run.do(msg.a_repr_rule, model, "C06.a-repr")
     from . import fwd
     run.do(fwd.forwarding, model, "C06.configured-repr", ("a_repr",))
+    run.do(rec.simple_nodes, model)
     run.minimum("C06.optable", 27)
     run.minimum("C06.chain", 1)
     run.minimum("C06.node-value", 20)
